@@ -9,26 +9,27 @@ HERE = os.path.dirname(os.path.abspath(__file__))
 def main(tier, only=None):
     shapes = []
     lens = [1, 2, 3, 4, 5] if tier == 'quick' else [1, 2, 3, 4, 5, 6]
-    cfgs = [(0, 3, 1), (1, 4, 1), (2, 5, 0), (0, 8, 1)] if tier == 'quick' else [(0, 3, 1), (0, 3, 0), (1, 4, 1), (2, 5, 0), (2, 5, 1), (0, 8, 1), (1, 8, 0), (3, 6, 1)]
+    # incl. indentations that are as wide as / wider than the line: every word then stands alone on its line, fully indented
+    cfgs = [(0, 3, 1), (1, 4, 1), (2, 5, 0), (0, 8, 1), (3, 3, 1), (4, 3, 0)] if tier == 'quick' else [(0, 3, 1), (0, 3, 0), (1, 4, 1), (2, 5, 0), (2, 5, 1), (0, 8, 1), (1, 8, 0), (3, 6, 1), (3, 3, 1), (3, 3, 0), (4, 3, 0), (5, 2, 1)]
     for n in lens:
         for (ind, w, first) in cfgs:
-            if tier == 'quick' and n == 5 and (ind, w, first) not in ((1, 4, 1), (0, 3, 1)):
+            if tier == 'quick' and (n == 5 and (ind, w, first) not in ((1, 4, 1), (0, 3, 1)) or n >= 4 and ind >= w):
                 continue
             shapes.append(('hx_textblock', [n, ind, w, first], 'len%d/indent%d/width%d/first%d' % (n, ind, w, first)))
     for nw in ((3, 4, 5) if tier == 'quick' else (3, 4, 5, 6)):
         for dash in (0, 1):
             for nnpos in ((0, 2) if tier == 'quick' else (0, 1, 2, 3)):
-                for (ind, w) in ((0, 7), (2, 9), (1, 6), (2, 4)) if tier == 'quick' else ((0, 7), (2, 9), (1, 6), (4, 12), (0, 5), (2, 4), (0, 2), (3, 5)):
+                for (ind, w) in ((0, 7), (2, 9), (1, 6), (2, 4), (4, 4)) if tier == 'quick' else ((0, 7), (2, 9), (1, 6), (4, 12), (0, 5), (2, 4), (0, 2), (3, 5), (4, 4), (6, 3)):
                     if nw == 5 and tier == 'quick' and (ind, w) != (2, 9):
                         continue
-                    if tier == 'quick' and (ind, w) == (2, 4) and nw != 3:        # words wider than the line followed by more words
+                    if tier == 'quick' and (ind, w) in ((2, 4), (4, 4)) and nw != 3:        # words wider than the line followed by more words
                         continue
                     shapes.append(('hx_textblock_words', [nw, dash | (nnpos << 1), ind, w], 'words%d/dash%d/nn%d/indent%d/width%d' % (nw, dash, nnpos, ind, w)))
     if only:
         shapes = [s for s in shapes if re.search(only, s[2])]
     u = E2Unit('text_C17', os.path.join(HERE, 'w_text.cpp'), lib_srcs=['src/library/format/text_block.cpp'], shapes=shapes, timeout=900 if tier == 'quick' else 3000,
                max_paths=2000000, conc_cap=300,
-               bounds=dict(text='every text of the given length over the alphabet {a, b, n, -, space, newline} (symbolic); structured texts: optional list dash, 3-6 words of symbolic length 1..3, optional nn token', indent='0..3', width='3..8 (2..12 for the structured texts, incl. widths smaller than a word)', first_line='both modes'))
+               bounds=dict(text='every text of the given length over the alphabet {a, b, n, -, space, newline} (symbolic); structured texts: optional list dash, 3-6 words of symbolic length 1..3, optional nn token', indent='0..6, also >= width', width='3..8 (2..12 for the structured texts, incl. widths smaller than a word)', first_line='both modes'))
     rule = 'one obligation = (text length, indent, width, first-line mode); all texts of that length are explored path-wise, z3 decides every branch and assertion'
     assumptions = ['IR of text_block.cpp, celma::common::Tokenizer and the boost tokenizer header code', 'ostream sink model (irsym_cxx): operator<< / endl append bytes, honour width/fill',
                    'texts longer than the bound, tabs and other characters are outside the claim']
